@@ -265,6 +265,7 @@ pub fn c16_configs(thorough: bool) -> Vec<EpCfg> {
                 c.alph.peer_dup = true;
                 c.alph.peer_acks = vec![AckKind::Puback, AckKind::Pubrec, AckKind::Pubcomp, AckKind::Pubrel];
                 c.alph.reply_err = true;
+                c.alph.defer_pubrel = !auto;
                 if ver == Ver::V5 {
                     c.connacks = vec![AckProf::basic(false), AckProf::basic(true), AckProf { rm: Some(2), ..AckProf::basic(true) }];
                     c.connects = vec![ConnProf::basic(true), ConnProf::basic(false), ConnProf { rm: Some(2), ..ConnProf::basic(false) }];
@@ -341,8 +342,33 @@ pub fn c16(rep: &mut Report) {
             let mut out = vec![];
             // crash points: step boundaries of a persistent session; the export API cannot see an
             // exchange between PUBREC and a deferred PUBREL, nor identifiers parked by the application
-            if !w.m.persistent || w.m.close_pending || !w.m.owed_rel.is_empty() || w.m.ids.values().any(|o| matches!(o, Owner::App | Owner::RelOwed | Owner::Sub | Owner::Unsub)) || w.m.st == St::Connecting {
+            if !w.m.persistent || w.m.close_pending || w.m.ids.values().any(|o| matches!(o, Owner::App | Owner::Sub | Owner::Unsub)) || w.m.st == St::Connecting {
                 return (0, false, false, out);
+            }
+            // an exchange between PUBREC and a deferred (manual) PUBREL is "accepted but not completed" too:
+            // the restored object must at least hold its identifier. Judged on its own (one signature); the
+            // differential comparison below would only repeat the consequence.
+            let owed: Vec<u32> = w.m.ids.iter().filter(|(_, o)| **o == Owner::RelOwed).map(|(i, _)| *i).collect();
+            if !owed.is_empty() {
+                let x_store = w.conn.stored();
+                let x_handled = w.conn.handled();
+                let ver = w.m.ver.unwrap();
+                let r = guarded(|| {
+                    let mut b = fresh_conn::<u16>(&w.cfg, Some(ver));
+                    b.restore_packets(x_store.clone());
+                    b.restore_handled(&x_handled);
+                    owed.iter().filter(|id| b.clone().register(**id).is_ok()).copied().collect::<Vec<u32>>()
+                });
+                let hist: Vec<serde_json::Value> = hists[i].iter().map(|a| json!(format!("{a:?}"))).chain(std::iter::once(json!("then: export, crash, restore into a fresh object"))).collect();
+                match r {
+                    Err(m) => out.push(Violation { rule: "c16.panic".into(), sig: format!("c16.panic|{}", crate::util::panic_sig(&m)), detail: format!("[{name}] panic while restoring: {m}"), config: name.clone(), history: hist }),
+                    Ok(free) => {
+                        if !free.is_empty() {
+                            out.push(Violation { rule: "c16.owed-pubrel-not-exported".into(), sig: format!("c16.owed-pubrel-not-exported|{}", if ver == Ver::V5 { "v5" } else { "v4" }), detail: format!("[{name}] QoS 2 exchange(s) {free:?} have received PUBREC and await the application's PUBREL at the crash point; get_stored_packets() exports nothing for them, so the restored object neither holds their identifiers (register succeeds) nor can complete them - the original would"), config: name.clone(), history: hist });
+                        }
+                    }
+                }
+                return (1, false, false, out);
             }
             let ver = w.m.ver.unwrap();
             let as_client = w.m.as_client;
@@ -468,7 +494,7 @@ pub fn c16(rep: &mut Report) {
     rep.add_cov("traces_validated_against_impl", compared);
     rep.floor("c16.crash-points-with-stored-packets", 10);
     rep.floor("c16.crash-points-with-handled-ids", 10);
-    rep.assume("crash / export points are application step boundaries of a persistent session (after mandatory replies; no identifier parked by the application; no exchange between PUBREC and a deferred PUBREL, which the export API cannot see)");
+    rep.assume("crash / export points are application step boundaries of a persistent session (after mandatory replies; no identifier parked by the application); an exchange between PUBREC and a deferred PUBREL is judged only for 'its identifier is held' (known finding)");
 }
 
 /// malformed exports: duplicate ids and a QoS 0 PUBLISH wrapped in GenericStorePacket are skipped
